@@ -552,7 +552,8 @@ def suite_types(out, tier, seed):
     from x690 import decode
     rnd = random.Random(seed)
     for bits, cls in ((32, Counter), (64, Counter64)):
-        for v in [0, 1, -1, -2 ** 70, 2 ** bits - 1, 2 ** bits, 2 ** bits + 5, 2 ** (bits + 32) + 2 ** 32 + 5] + [rnd.randint(-2 ** 70, 2 ** 140) for _ in range(200)]:
+        for v in [0, 1, -1, -2 ** 70, -2 ** bits, -2 ** bits - 1, -2 ** bits + 1, -2 ** (bits + 1), 2 ** bits - 1, 2 ** bits, 2 ** bits + 5,
+                  2 ** (bits + 32) + 2 ** 32 + 5] + [rnd.randint(-2 ** 70, 2 ** 140) for _ in range(200)]:
             out.case((cls.__name__, v))
             want = 0 if v <= 0 else v % 2 ** bits
             if cls(v).value != want:
@@ -804,6 +805,9 @@ def suite_interop(out, tier, seed, part=None):
                 continue
             pw = bytes((i * 31 + 7) % 251 + 1 for i in range(plen))
             eid = bytes(rnd.randrange(256) for _ in range(rnd.randint(5, 32)))
+            if plen == 8:
+                # engine ids as RFC 3411 builds them from addresses or padded text: long runs of zero octets
+                eid = bytes([0x80, 0x00, 0x1f, 0x88, 0x02]) + bytes(16)
             clock = {"t": 1000}
             payload_size = rnd.choice(sizes)
             db = [((1, 3, 6, 1, 2, 1, 1, 1, 0), ("bytes", ber.OCTETS, bytes(payload_size))), ((1, 3, 6, 1, 2, 1, 1, 2, 0), ("int", ber.INT, 5))]
@@ -1161,9 +1165,15 @@ def suite_trap(out, tier, seed):
         vbs += [((1, 3, 6, 1, 4, 1, 9, i), ("int", ber.INT, 1000 * k + i)) for i in range(n)]
         return ber.build_community_message(1, comm, ber.build_pdu(ber.TRAP2, 77, 0, 0, vbs)), vbs
     seq = []
-    for _ in range(30 if tier == "quick" else 600):
-        kind = rnd.choice(["valid", "valid", "foreign", "truncated", "garbage"])
-        data, vbs = trap_bytes(b"trapcomm" if kind != "foreign" else b"other", rnd.choice([0, 1, 2, 3, 3, 6, 9, 14, 25]))
+    foreign_communities = [b"other", b"trapcomm\xff", b"\x80trapcomm", b"trapcom", b"trapcommm", b"", b"TRAPCOMM"]
+    for step in range(30 if tier == "quick" else 600):
+        kind = rnd.choice(["valid", "valid", "foreign", "truncated", "garbage", "other-version"])
+        if step == 0:
+            kind = "other-version"       # the listener's first datagram is a well-formed SNMPv1 message
+        data, vbs = trap_bytes(b"trapcomm" if kind != "foreign" else foreign_communities[step % len(foreign_communities)],
+                               rnd.choice([0, 1, 2, 3, 3, 6, 9, 14, 25]))
+        if kind == "other-version":
+            data = ber.build_community_message(0, b"trapcomm", ber.build_pdu(ber.TRAP2, 77, 0, 0, vbs))
         if kind == "truncated":
             data = data[:rnd.randint(1, len(data) - 1)]
         if kind == "garbage":
@@ -1205,6 +1215,9 @@ def suite_trap(out, tier, seed):
                 break
         elif kind == "foreign" and new:
             out.fail(scen, repr(new), "a foreign community is never delivered")
+            break
+        elif kind == "other-version" and new:
+            out.fail(scen, repr(new), "a version-0 message is not an SNMPv2c notification of this listener")
             break
         if proto.transport.closed:
             out.fail(scen, "the listener closed its transport", "later notifications are still delivered")
